@@ -69,6 +69,12 @@ def decorate_config(sc, prof, rr):
     elif sc["N"] is None and sc.get("wtt_us") is None and rr.random() < prof.get("api_p", .15):
         kw = api_kwargs(sc, rr)
         sc["api"] = kw
+    # (drawn last: everything above is what it was)  The host environment: the event loop of the application that runs the worker
+    # already HAS a task factory of its own when listening starts (a tracing / naming factory; not an eager one) - for the
+    # scenarios whose loop is the driver's (start_listen makes and configures its own).  By default the loop has none, and
+    # whatever the code under test sets on the running loop takes effect (vloop.VLoop keeps the harness' tagging apart).
+    if sc.get("entry") is None and rr.random() < prof.get("appfactory_p", .06):
+        sc["app_task_factory"] = rr.choice(["function", "function", "task-subclass"])
     return sc
 
 
@@ -533,8 +539,110 @@ def gen_live_cancel(r, prof):
     return sc
 
 
+def gen_relisten(r, prof):
+    """Scenario family (own random stream): ONE Receiver object runs SEVERAL listen() sessions.  The application supervises
+    listen() itself (sc["live"]["supervisor"], run by the driver in place of run_receiver_task, which builds a new Receiver per
+    attempt): it calls listen() again on the same object
+      mode fault: after listen() raised because the broker's stream failed - scripted for a moment at which every slot is busy
+                  (fault = dict(k, busy=True, until): the connection drops instead of delivering message k or a later one when,
+                  at its arrival, max_async_tasks callbacks are inside long bodies, the runner waits for a slot and the prefetcher
+                  for this fetch; needs max_prefetch >= 1), 1-3 times, at once or after a back-off, with the same finish event or a
+                  fresh one; the callbacks of the failed session go on running, the remaining messages go to the new session;
+                  the history ends with the saturation probe.  In a minority of the scenarios the faults are placed as in
+                  gen_live (any moment).
+      mode stop:  after listen() RETURNED from a graceful stop whose wait_tasks_timeout expired while 1..A-1 long callbacks were
+                  in flight (the runner was waiting for a message, not for a slot); after a pause the application resumes the
+                  worker with a fresh / the cleared event and a backlog arrives while those callbacks are still running.
+    The worker the statements speak about is the Receiver object: its sessions share the slots.  Decided by the direct oracles
+    (no LTS trace: the LTS models one session).  What Receiver does not promise is not demanded: when the raw log shows that a
+    session ended while its runner held a slot no callback had been given (listen() failed / returned with the runner waiting for
+    a message) that slot is gone by construction of runner(): only the limit is demanded then (Facts.slot_lost), and in mode stop
+    only the limit is demanded at all."""
+    mode = "stop" if r.random() < prof.get("relisten_stop_p", .25) else "fault"
+    if mode == "fault":
+        A, P = r.choice([1, 2, 2, 2, 3, 3, 4]), r.choice([1, 1, 1, 2, 2, 3])
+    else:
+        A, P = r.choice([2, 2, 3, 4]), r.choice([0, 1, 1, 2])
+    base = gen_base(r, dict(prof, cli_p=0, never=0, probe=mode == "fault", stop_p=0, n_p=0, ends_p=0, backlog=True, A_choices=[A],
+                            P_choices=[P], wtt_p=.2 if mode == "fault" else 0))
+    msgs = base["msgs"]
+    n0 = sum(1 for m in msgs if not m.get("probe"))
+
+    def long_valid(m, durs):
+        for k in ("pre_fail", "tlabel_us", "cleanup_us", "payload", "fail_exc", "fail_after_us", "post_fail", "save_fail", "psave_fail",
+                  "onerr_fail"):
+            m.pop(k, None)
+        old = max(m["dur"], 0)
+        m.update(kind="ok", style="async", dur=r.choice(durs))
+        if m["ack"] not in ("none", "sync", "async"):
+            m["ack"] = "sync"
+        return m["dur"] - old
+
+    extra = 0
+    faults = []
+    if mode == "fault":
+        for m in msgs[:A]:
+            extra += long_valid(m, [US, 3 * US, 3 * US, 5 * US])
+            m["at"] = r.choice([0, 0, 1])
+        # the rest of the backlog arrives a little later, one after the other: the broker is asked for each of them while the
+        # first A are running
+        gap = r.choice([1, 1000, 20_000, 50_000])
+        t = max(m["at"] for m in msgs[:A])
+        for m in msgs[A:n0]:
+            t += gap + r.choice([0, 0, 1, 1000])
+            m["at"] = t
+        extra += t
+        if r.random() < prof.get("relisten_any_p", .15):
+            sc = gen_live(r, prof, base=base, n_faults=r.choice([1, 1, 2]))
+            faults = sc["live"]["faults"]
+            placed = "any"
+        else:
+            k = A + r.randint(0, P - 1)
+            for _ in range(r.choice([1, 1, 1, 2, 2, 3])):
+                faults.append(dict(k=min(k, n0 - 1), busy=True, until=n0, exc=r.choice(LIVE_EXC), hold=False, at_us=None, mode="all-slots-busy"))
+                k += r.choice([0, 0, 1, 1, 2])
+            sc = gen_live(r, prof, base=base, n_faults=0)
+            placed = "busy"
+        sv = dict(mode="fault", placed=placed, event=r.choice(["shared", "shared", "fresh"]), backoff_us=r.choice([0, 0, 1, 50_000, POLL, US]))
+        extra += sv["backoff_us"] * len(faults)
+    else:
+        j = r.randint(1, A - 1)
+        for m in msgs[:j]:
+            long_valid(m, [3 * US, 5 * US, 5 * US])
+            m["at"] = 0
+        stop = r.choice([50_000, POLL, US])
+        wtt = r.choice([0, 0, 500_000])
+        pause = r.choice([0, 1, 50_000, POLL])
+        t = stop + r.choice([0, 1, 400_000, US])
+        for m in msgs[j:]:
+            t += r.choice([0, 0, 1, 1000])
+            m["at"] = t
+            if m["kind"] == "ok" and r.random() < .7:
+                long_valid(m, [US, US, 3 * US])
+        base["stop_us"], base["wtt_us"] = stop, wtt
+        base["horizon_us"] = t + stop + wtt + pause + sum(max(m["dur"], 0) + m.get("cleanup_us", 0) for m in msgs) + 10 * US
+        sc = gen_live(r, prof, base=base, n_faults=0)
+        sv = dict(mode="stop", event=r.choice(["fresh", "fresh", "cleared"]), pause_us=pause, relistens=1, old_in_flight=j)
+    sc["live"]["faults"] = faults
+    sc["live"]["supervisor"] = sv
+    sc["live"]["kw"] = {}
+    if extra:
+        sc["horizon_us"] += extra
+        if "probe_at" in sc:
+            sc["probe_at"] += extra
+            for m in sc["msgs"]:
+                if m.get("probe"):
+                    m["at"] += extra
+    return sc
+
+
 def is_live(sc):
     return sc.get("live") is not None
+
+
+def same_receiver(sc):
+    """one Receiver object over all listen() sessions of the run (gen_relisten)"""
+    return bool((sc.get("live") or {}).get("supervisor"))
 
 
 # known finding D16 (known_findings.json): shared by the property files that see runs of gen_live_cancel
@@ -636,6 +744,8 @@ def count_inputs(rep, sc):
         rep.count("entry:stop-by-signal-handler=SIG%s%s" % (eo.get("sig", "INT"), "/repeated" if eo.get("again_us") is not None else "")
                   if sc.get("stop_us") is not None or sc.get("stop_on") else "entry:no-stop-request")
         rep.count("entry:broker-path-names-" + eo.get("broker_as", "object"))
+    if sc.get("app_task_factory"):
+        rep.count("host:the-application's-loop-has-its-own-task-factory=" + sc["app_task_factory"])
     if sc.get("api") is not None:
         a = sc["api"]
         rep.count("config:api-sync_workers=%s" % ("given" if a.get("sync_workers") else "default"))
@@ -648,7 +758,17 @@ def count_inputs(rep, sc):
     if sc.get("late"):
         rep.count("registration:scenario-with-late-or-shared-task")
         rep.count("registration:shared-broker-default=%s" % sc.get("shared_default"))
-    if is_live(sc):
+    if same_receiver(sc):
+        sv = sc["live"]["supervisor"]
+        rep.count("relisten:one-Receiver-object-over-several-listen()-sessions")
+        rep.count("relisten:mode=%s%s" % (sv["mode"], "/faults-placed-%s" % sv["placed"] if sv.get("placed") else ""))
+        rep.count("relisten:finish-event=%s" % sv.get("event"))
+        if sv["mode"] == "fault":
+            rep.count("relisten:back-off=%s" % ("none" if not sv.get("backoff_us") else "some"))
+            rep.count("relisten:faults-scripted=%d" % len(sc["live"]["faults"]))
+        else:
+            rep.count("relisten:stop-with-%d-of-%d-slots-busy,wait_tasks_timeout=%s" % (sv["old_in_flight"], sc["A"], sc["wtt_us"]))
+    elif is_live(sc):
         fl = sc["live"]["faults"]
         rep.count("live:run_receiver_task-runs-for-the-whole-scenario")
         rep.count("live:listen-faults-scripted=%d" % len(fl))
@@ -908,6 +1028,23 @@ class Facts:
             self.budget_t = mine[N - 1] if N and len(mine) >= N else None
         cands = [x for x in (self.stop_t, self.budget_t, self.brk_end_t) if x is not None]
         self.t0 = min(cands) if cands else None      # instant at which shutdown was triggered
+        # ONE Receiver object over all sessions (gen_relisten): the sessions share the slots
+        sv = (sc.get("live") or {}).get("supervisor") or {}
+        self.same_rcv = bool(sv)
+        self.limit_only = sv.get("mode") == "stop"
+        # sessions of that object that ended while the runner held a slot it had given to no callback: per session, the runner's
+        # slot acquisitions minus the callbacks it created
+        self.slot_lost = []
+        if self.same_rcv:
+            cur, acq, spawned = None, {}, {}
+            for e in raw:
+                if e[1] == "SESSION":
+                    cur = e[2]
+                elif e[1] == "sem.acq" and e[2] == "rn":
+                    acq[cur] = acq.get(cur, 0) + 1
+                elif e[1] == "spawn":
+                    spawned[cur] = spawned.get(cur, 0) + 1
+            self.slot_lost = [s for s in sorted(self.sess_start) if s != self.last_s and acq.get(s, 0) > spawned.get(s, 0)]
 
     def kind(self, i):
         return self.sc["msgs"][i]["kind"]
@@ -1048,6 +1185,18 @@ def count_live(rep, sc, o):
             rep.count("live:callbacks-of-old-and-new-session-together-exceed-A(not-demanded)")
     if sc["live"].get("cancel"):
         count_cancel(rep, sc, o, f)
+    if f.same_rcv:
+        # one Receiver object over the sessions: what each re-listen found (from the raw log)
+        rep.count("relisten:sessions-of-the-one-Receiver=%d" % (f.last_s + 1))
+        for s in sorted(f.sess_start):
+            if s == 0:
+                continue
+            t = f.sess_start[s]
+            busy = [i for i in f.cbstart if f.cbstart[i][0] <= t and not (f.cbdone.get(i) and f.cbdone[i][0] <= t)]
+            rep.count("relisten:callbacks-of-earlier-sessions-in-flight-at-a-re-listen=%s" % (
+                "0" if not busy else "all-%s-slots" % "A" if A is not None and len(busy) >= A else "some"))
+        rep.count("relisten:%s" % ("a-session-ended-with-the-runner-holding-a-slot(limit-only)" if f.slot_lost or f.limit_only
+                                   else "no-slot-lost(limit+saturation+progress-demanded)"))
     rep.count("live:" + ("returned" if o["returned"] else "cut"))
 
 
@@ -1096,7 +1245,7 @@ def replay_print(ctx, path, oracle, check):
     for e in shown[:300]:
         print("  %10d %s %s%s" % (e[0], e[1], "" if e[2] is None else e[2],
                                    " (the callback task ended CANCELLED)" if e[1] == "cb.done" and e[3] == "cancelled" else
-                                   " (%s)" % e[3] if e[1] in ("ack", "hook.aw", "hook.aw.end", "hook.begin", "hook.end", "FAULT", "REG", "WORKER.END") and e[3] else
+                                   " (%s)" % e[3] if e[1] in ("ack", "hook.aw", "hook.aw.end", "hook.begin", "hook.end", "FAULT", "REG", "WORKER.END", "LISTEN.FAILED") and e[3] else
                                    " (wait=%s, cancel_futures=%s)" % (e[2], e[3]) if e[1] == "pool.shutdown" else
                                    " (result carries the error %s)" % e[3] if e[1] in ("hook.post", "save") and e[3] else
                                    " (taken by listen() session %d)" % e[3] if e[1] == "TAKE" and e[3] is not None else
@@ -1108,8 +1257,9 @@ def replay_print(ctx, path, oracle, check):
     for f in fails:
         print("ORACLE:", f["what"], "| observed:", f.get("observed"), "| expected:", f.get("expected"))
     if is_live(sc):
-        print("model: not applicable - run_receiver_task ran for real over %d listen() sessions (the LTS models one session); "
-              "direct oracles only" % (1 + max([e[2] for e in raw if e[1] == "SESSION"] + [0])))
+        print("model: not applicable - %s over %d listen() sessions (the LTS models one session); direct oracles only" % (
+            "ONE Receiver object was run by a supervisor of the driver" if same_receiver(sc) else "run_receiver_task ran for real",
+            1 + max([e[2] for e in raw if e[1] == "SESSION"] + [0])))
         print("holds" if not fails else "VIOLATED")
         return 0 if not fails else 1
     if any(e.startswith("EBad") for e in lts):
